@@ -89,7 +89,7 @@ def w_prof(w, p):
 
 # ---------------------------------------------------------------------------- the statement of the read path
 STMT_RE = re.compile(
-    r"^WITH fp as \( (?P<fp>.*?)\),raw as \( SELECT arrayMap\(x -> \((?P<proj>.*?)\), tree\) as tree, functions FROM (?P<table>\S+) "
+    r"^WITH fp as \( (?P<fp>.*?)\),raw as \( SELECT (?P<distinct> DISTINCT )?arrayMap\(x -> \((?P<proj>.*?)\), tree\) as tree, functions FROM (?P<table>\S+) "
     r"WHERE \(\(timestamp_ns\) >= \((?P<from>-?\d+)\)\) and \(\(timestamp_ns\) < \((?P<to>-?\d+)\)\) and \(fingerprint IN \(fp\)\) and "
     r"\((?P<match>.*)\)\),pre_joined as \( SELECT rtree FROM raw array JOIN raw\.tree as rtree \),joined as \( SELECT \((?P<out>.*?)\) as tree "
     r"FROM pre_joined GROUP BY (?P<group>.*?) ORDER BY (?P<order>.*?) LIMIT (?P<limit>\d+)\) SELECT \(select (?P<agg1>\w+)\(tree\) from joined\) "
@@ -148,7 +148,8 @@ def parse_stmt(text):
         return None
     return {"fp": m.group("fp"), "table": m.group("table"), "match": m.group("match"), "types": types, "proj": proj,
             "from": int(m.group("from")), "to": int(m.group("to")), "out": out, "group": group, "order": order,
-            "limit": int(m.group("limit")), "agg1": AGGS[m.group("agg1")], "agg2": AGGS[m.group("agg2")]}
+            "limit": int(m.group("limit")), "agg1": AGGS[m.group("agg1")], "agg2": AGGS[m.group("agg2")],
+            "distinct": bool(m.group("distinct"))}
 
 
 def stmt_key(st):
@@ -163,11 +164,11 @@ def cstr(x):
 def stmt_coq(st):
     z = lambda v: "(%d)%%Z" % v
     return ("{| ms_fp := %s; ms_table := %s; ms_matchers := %s; ms_types := [%s]; ms_proj := [%s]; ms_from := %s; ms_to := %s; "
-            "ms_out := [%s]; ms_group := [%s]; ms_order := [%s]; ms_limit := %s; ms_tree_agg := %s; ms_fn_agg := %s |}"
+            "ms_out := [%s]; ms_group := [%s]; ms_order := [%s]; ms_limit := %s; ms_tree_agg := %s; ms_fn_agg := %s; ms_distinct := %s |}"
             % (cstr(st["fp"]), cstr(st["table"]), cstr(st["match"]),
                "; ".join(cstr(t) for t in st["types"]), "; ".join(st["proj"]), z(st["from"]), z(st["to"]),
                "; ".join(st["out"]), "; ".join(g + "%N" for g in st["group"]), "; ".join(g + "%N" for g in st["order"]),
-               z(st["limit"]), st["agg1"], st["agg2"]))
+               z(st["limit"]), st["agg1"], st["agg2"], "true" if st.get("distinct") else "false"))
 
 
 def attach_statements(cases):
@@ -307,9 +308,10 @@ def eval_cases(ck, name, cases, hashes, templates=(), judge_text=False):
            "Definition H := Eval vm_compute in hash_mismatches hs.\nPrint H.\n"
            "Definition Y := Eval vm_compute in snd (fst (fst ALL)).\nPrint Y.\n"
            "Definition HF := Eval vm_compute in snd (fst ALL).\nPrint HF.\n"
-           "Definition DM := Eval vm_compute in fst (fst (snd ALL)).\nPrint DM.\n"
-           "Definition SQ := Eval vm_compute in snd (fst (snd ALL)).\nPrint SQ.\n"
-           "Definition SJ := Eval vm_compute in snd (snd ALL).\nPrint SJ.\n")
+           "Definition DM := Eval vm_compute in fst (fst (fst (snd ALL))).\nPrint DM.\n"
+           "Definition SQ := Eval vm_compute in snd (fst (fst (snd ALL))).\nPrint SQ.\n"
+           "Definition SJ := Eval vm_compute in snd (fst (snd ALL)).\nPrint SJ.\n"
+           "Definition ST := Eval vm_compute in snd (snd ALL).\nPrint ST.\n")
     if judge_text:
         # the parser is not trusted: the model's rendering of every parsed statement is the recorded text, byte for byte;
         # and every template has the shape the theorems are about (stmt_ok)
@@ -333,7 +335,8 @@ def parse_eval(ck, name, out, templates, judge_text):
     dm = re.search(r"\bDM = (?:\[(.*?)\]|nil)\s*: list Z", flat)
     sq = re.search(r"\bSQ = (?:\[(.*?)\]|nil)\s*: list Z", flat)
     sj = re.search(r"\bSJ = (-?\d+)\s*: Z", flat)
-    if not d or not m or not v or not h or not hf or not dm or not sq or not sj:
+    st = re.search(r"\bST = (?:\[(.*?)\]|nil)\s*: list \(Z \* \(Z \* Z\)\)", flat)
+    if not d or not m or not v or not h or not hf or not dm or not sq or not sj or not st:
         return None, None, None, out
     ints = lambda s: [int(x) for x in re.findall(r"-?\d+", s or "")]
     y = re.search(r"\bY = \((\d+), (\d+), (\d+)\)", flat)
@@ -347,6 +350,9 @@ def parse_eval(ck, name, out, templates, judge_text):
     ck.extra.setdefault("diff_mismatch_cases", []).extend(ints(dm.group(1)))
     ck.extra.setdefault("sql_judge_failed_cases", []).extend(ints(sq.group(1)))
     ck.extra["cases_with_statements_judged"] = ck.extra.get("cases_with_statements_judged", 0) + int(sj.group(1))
+    tt = ints(st.group(1))
+    ck.extra.setdefault("rejected_statement_totals", {}).update(
+        {str(i): (t if has else None) for i, has, t in zip(tt[0::3], tt[1::3], tt[2::3])})
     if judge_text:
         rk = re.search(r"\bRK = (?:\[(.*?)\]|nil)\s*: list bool", flat)
         ok = re.search(r"\bOK = (?:\[(.*?)\]|nil)\s*: list bool", flat)
@@ -507,8 +513,10 @@ def shrink(ck, c, budget=12):
         saved = dict(ck.extra)
         for k in ("sql_judge_failed_cases", "diff_mismatch_cases", "hypothesis_fails_in_cases"):
             ck.extra[k] = []
+        ck.extra["rejected_statement_totals"] = {}
         m, v, h, out = eval_cases(ck, "C16_shrink", [r], [], templates, False)
         sq = list(ck.extra.get("sql_judge_failed_cases", []))
+        r["_stmt_total"] = ck.extra.get("rejected_statement_totals", {}).get("1")
         ck.extra.clear()
         ck.extra.update(saved)
         if m is None:
@@ -551,6 +559,32 @@ def shrink(ck, c, budget=12):
                 break
     ck.extra["shrink_evaluations"] = used
     return best
+
+
+def wrap64(z):
+    return (z + (1 << 63)) % (1 << 64) - (1 << 63)
+
+
+def stored_view(c):
+    """what the stored profiles of an e2e case put into the flame graph of the selected type: the sum of the root totals of
+    every stored tree (= sum of the selected sample values, by the root-sum oracle), per profile and together, and the groups
+    of profiles whose raw rows (tree projected on the selected type, functions) are identical"""
+    per, same = [], {}
+    for i, p in enumerate(c["profs"] or []):
+        rows, tot = [], 0
+        for r in p["rows"] or []:
+            s = t = 0
+            for k, tok in enumerate(r["vn"] or []):
+                if tok == c["sel"]:
+                    s, t = r["v"][k]
+                    break
+            rows.append((r["p"], r["f"], r["i"], s, t))
+            if r["p"] == 0:
+                tot = wrap64(tot + t)
+        per.append(tot)
+        if p["rows"]:
+            same.setdefault(json.dumps([rows, p["funcs"]]), []).append(i)
+    return per, [g for g in same.values() if len(g) > 1]
 
 
 def has_empty_stack(c):
@@ -733,12 +767,31 @@ def run_corr(ck):
     nj = ck.extra.get("cases_with_statements_judged", 0)
     ck.obligation("the statements evaluate (eval_merge_stmt on the rows the writer stored, time window included) to the rows handed to the "
                   "service, for MergeStackTraces and both sides of RenderDiff: %d cases judged" % nj, not sqbad and nj > 0, "case ids %s" % sqbad[:10])
+    # generator reach: databases holding the same stored profile more than once (a multiset, not a set, of profiles) are among
+    # the judged ones -- what a statement that reads the stored profiles as a set (SELECT DISTINCT in the raw select) gets wrong
+    rep = [c for c in tcases if c["kind"] == "e2e" and c.get("_stmt", -1) >= 0 and sum(len(p["rows"] or []) for p in c["profs"]) <= 150
+           and stored_view(c)[1]]
+    ck.extra["judged_cases_with_repeated_stored_profiles"] = len(rep)
+    ck.extra["judged_cases_with_repeated_stored_profiles_by_multiplicity"] = {
+        str(k): sum(1 for c in rep if max(len(g) for g in stored_view(c)[1]) == k) for k in (2, 3, 4)}
+    ck.obligation("the databases the statements are judged on include repeated stored profiles (identical tree and functions columns: "
+                  "the same profile scraped twice, A,B,A): %d judged cases" % len(rep), len(rep) >= 2, "the generator / corpus produced none")
+    ck.extra["statement_templates_with_distinct"] = sum(1 for st, _ in templates if st.get("distinct"))
     if sqbad:
-        worst = min((byid[i] for i in sqbad), key=case_size)
+        first = min((byid[i] for i in sqbad), key=case_size)
+        first["_stmt_total"] = ck.extra.get("rejected_statement_totals", {}).get(str(first["id"]))
+        worst = shrink(ck, first)
+        per, same = stored_view(worst)
         ck.violation({"property": "C16", "kind": "the statement of PlanMergeTraces does not compute the projection/grouping the flame graph is built from",
                       "case": slim(worst), "statement": worst["svc"]["sql"],
+                      "expected_total": wrap64(sum(per)), "stored_root_totals_per_profile": per,
+                      "total_the_statement_evaluates_to": worst.get("_stmt_total"),
+                      "profiles_with_identical_stored_rows": same,
                       "explanation": "eval_merge_stmt (coq/model/ProfSql.v) of the parsed statement on the stored rows of this case differs from "
-                      "group-by-(parent,function,node) sums of the rows projected on the selected sample type",
+                      "group-by-(parent,function,node) sums of the rows projected on the selected sample type: the flame graph built from the "
+                      "statement's answer has total_the_statement_evaluates_to (null: the statement has no value in the model) where the stored "
+                      "profiles (profs, all inside the window of MergeStackTraces) put expected_total; a raw select that is a SELECT DISTINCT reads "
+                      "profiles with identical stored rows once (theorem distinct_statement_refuted)",
                       "replay": "write the case as one JSON line and run: proftree --cases <file>"})
     dmm = sorted(set(ck.extra.get("diff_mismatch_cases", [])))
     ndiff = sum(1 for c in tcases if c.get("diff") and not c["diff"].get("skipped"))
